@@ -149,18 +149,20 @@ CLAIMED = {
   ref='6/C11', technique='Lean 4 proof (case analysis of the attempt function over downstream scripts, induction on the LMTP merge) + differential correspondence vs real relay clients on scripted peers',
   note='Partial: resolver, connection reuse and real timeouts are covered by the correspondence campaign, not by theorems.'),
  'C19': dict(
-  text='PARTIAL (liveness is proved as deadlock-freedom: with a request waiting some pool step is always enabled; fair termination is not a theorem; '
+  text='PARTIAL (liveness is a termination theorem over the pool\'s own steps: idle timers and connection faults between messages are environment events and must be finitely many; '
        'RSET-after-failure and one-message-at-a-time on a reused connection are monitored on the implementation, not proved). Lean theorems over '
        'Model/Pool.lean: BlockingDeque keeps semaphore = length under every sequence of its 8 operations, a pop never finds the deque empty behind '
        'the semaphore and blocks exactly when it is empty; the pool transition system (labels: attempt, poll, wake, idle expiry, finish, fail, '
        're-queue, connection drop, link callback; SMTP-style exiting clients and HTTP-style persistent clients) keeps for every interleaving: '
        'clients <= pool_size; every attempted request is in exactly one place (queue once / held by exactly one client / answered once), nothing '
        'unattempted is anywhere; a waiting request always has a client in the pool and an enabled pool step (no stranding); a busy client can '
-       'always complete. Tied to the code by replaying, label by label, the traces of the real RelayPool + SmtpRelayClient (scripted gated SMTP '
+       'always complete; a measure strictly decreases on every step of the pool itself (poll, wake, finish, fail, re-queue by a reused connection, '
+       'link callback incl. respawn), so every schedule of those steps is finite (progress_runs_are_bounded), and a state with none of them '
+       'enabled has an empty queue, no busy client and every attempted request answered (stuck_means_all_answered). Tied to the code by replaying, label by label, the traces of the real RelayPool + SmtpRelayClient (scripted gated SMTP '
        'peers on socketpairs) and HttpRelay + HttpRelayClient (gated loopback HTTP peer) through the model: every observed label must be '
        'enabled and the idle flags, queue and answered set must agree at every observation point; BlockingDeque by random operation sequences.',
   ref='6/C19', technique='Lean 4 proof (inductive invariant of the pool transition system over all interleavings; BlockingDeque invariant) + trace-replay correspondence vs real RelayPool/SmtpRelayClient/HttpRelayClient',
-  note='Partial: termination under fairness is not proved; per-connection protocol discipline is monitored, not proved.'),
+  note='Partial: termination assumes finitely many idle-timer and connection-fault events; per-connection protocol discipline is monitored, not proved.'),
  'C12': dict(
   text='PARTIAL (stage 1 of the queue model: storage calls atomic inside a section, pool spawns do not block — bounded pools are tied by the '
        'correspondence with a lenient scheduler label and by the monitors only; environment assumption Calm: the storage does not announce a '
